@@ -126,21 +126,23 @@ Print Assumptions C17_no_dial_after_deadline.
    (KeepAlives, events, reports) at any listed times and/or periodically for ever — in particular more often
    than the read deadline, so that the deadline never fires. The named behaviours (Silent, StallExchange, ...)
    are the silent special cases.
-   If the probe connection has a read deadline r (llrp.WithTimeout) and the request goroutine closes the client
-   itself after a Shutdown that failed (force_close), then a run that starts at 0 with context deadline dl ends by
+   A reply may also be TRICKLED (header at once, then a byte every g ticks, never complete).
+   If the probe connection has a read deadline r (llrp.WithTimeout) that bounds the arrival of each WHOLE message
+   (armed once per message: idle_deadline = false) and the request goroutine closes the client itself after a
+   Shutdown that failed (force_close), then a run that starts at 0 with context deadline dl ends by
    dl + allowance = dl + dial + send_timeout + 4 r, for every assignment of scripts to addresses and every
    distribution of addresses over workers.
    PARTIAL in one respect only: abstract timers (wall-clock time is not expressible; the harness measures it
    against the same allowance + slack). Not covered: time spent by the SDK calls of the result collector. *)
 Theorem C17_run_time_bounded_partial : forall tm r dl m port hosts work,
-  read_deadline tm = Some r -> force_close tm = true ->
+  read_deadline tm = Some r -> force_close tm = true -> idle_deadline tm = false ->
   exists t, run_time tm dl m port hosts work = Some t /\ t <= dl + allowance tm.
 Proof. exact run_time_bounded. Qed.
 Print Assumptions C17_run_time_bounded_partial.
 
 (* the clause for ONE probe, over all scripts *)
 Theorem C17_probe_bounded_all_scripts : forall tm r s,
-  read_deadline tm = Some r -> force_close tm = true ->
+  read_deadline tm = Some r -> force_close tm = true -> idle_deadline tm = false ->
   exists d, probe_time tm (Script s) = Some d /\ d <= allowance tm.
 Proof. exact script_time_bounded. Qed.
 Print Assumptions C17_probe_bounded_all_scripts.
@@ -151,13 +153,13 @@ Print Assumptions C17_probe_bounded_all_scripts.
    closes the client), and one such host makes a run never return. Replayed on the Go code by the chatty
    host scripts of checks/c17.py. *)
 Theorem C17_chatty_refuser_blocks_without_forced_close : forall tm r p,
-  read_deadline tm = Some r -> force_close tm = false -> 0 < send_timeout tm -> 0 < p -> p <= r ->
+  read_deadline tm = Some r -> force_close tm = false -> idle_deadline tm = false -> 0 < send_timeout tm -> 0 < p -> p <= r ->
   probe_time tm (Script (chatty_refuser p)) = None.
 Proof. exact chatty_refuser_blocks. Qed.
 Print Assumptions C17_chatty_refuser_blocks_without_forced_close.
 
 Theorem C17_run_time_refuted_no_forced_close : forall tm r dl,
-  read_deadline tm = Some r -> force_close tm = false -> 0 < r -> 0 < send_timeout tm -> 0 < dl ->
+  read_deadline tm = Some r -> force_close tm = false -> idle_deadline tm = false -> 0 < r -> 0 < send_timeout tm -> 0 < dl ->
   exists m port hosts work, run_time tm dl m port hosts work = None.
 Proof. exact run_time_refuted_no_forced_close. Qed.
 Print Assumptions C17_run_time_refuted_no_forced_close.
@@ -195,7 +197,7 @@ Example C17_example_run :
                mk_device (str "noaddr") None Up] in
   let hosts := fun a => if a =? 1 then Refuse else if a =? 4 then Garbage
                         else Answer (Some (25882, 2001002, str "5.14")) (Some (0, [0; 0; a; a; a])) in
-  let tm := mk_timers 2 (Some 2) 20 true in
+  let tm := mk_timers 2 (Some 2) 20 true false in
   run_probed tm 300 (make_device_map devs) 5084 hosts [[1; 2]; [3; 4; 5]] = [1; 5; 4; 3] /\
   map fst (run_reported tm 300 (make_device_map devs) 5084 hosts [[1; 2]; [3; 4; 5]]) = [5; 3] /\
   run_time tm 300 (make_device_map devs) 5084 hosts [[1; 2]; [3; 4; 5]] = Some 0 /\
@@ -220,9 +222,9 @@ Example C17_example_chatty :
   (exists i, probe_result tm (Script (host ok (Ans 0 false) [] (Some 100))) = Some i) /\
   probe_time tm (Script (host NoAns ok [100; 200; 400; 650; 900] None)) = Some 1200 /\
   run_time tm 1000 (fun _ => None) 5084 (fun _ => Script (host ok NoAns [] (Some 100))) [[1; 2]; [3]] = Some 20100 /\
-  probe_time (mk_timers 300 (Some 300) 20000 false) (Script (host ok (Ans 0 false) [] (Some 100))) = None /\
-  probe_time (mk_timers 300 (Some 300) 20000 false) (Script (host ok (Ans 0 false) [] None)) = Some 300 /\
-  probe_time (mk_timers 300 (Some 300) 20000 false) (Script (host ok NoAns [] None)) = Some 300.
+  probe_time (mk_timers 300 (Some 300) 20000 false false) (Script (host ok (Ans 0 false) [] (Some 100))) = None /\
+  probe_time (mk_timers 300 (Some 300) 20000 false false) (Script (host ok (Ans 0 false) [] None)) = Some 300 /\
+  probe_time (mk_timers 300 (Some 300) 20000 false false) (Script (host ok NoAns [] None)) = Some 300.
 Proof. vm_compute. repeat split; try reflexivity. eexists; reflexivity. Qed.
 
 (* ---- "its CONFIGURED maximum duration": which configuration? ----
@@ -270,4 +272,51 @@ Example C17_example_config_history :
   let c2 := mk_config (str "10.0.0.0/16") 50 1 5085 2 in         (* everything changed, two seconds *)
   used (crun c0 [Discover; Deliver c1; DeliverOther; Discover; Deliver c1; Deliver c2; Discover; DeliverOther; Discover]) = [c2; c2; c1; c0] /\
   run_deadline c0 = Some 300000 /\ run_deadline c1 = None /\ run_deadline c2 = Some 2000.
+Proof. vm_compute. repeat split; reflexivity. Qed.
+
+(* ---- what the read deadline bounds ----
+   The bound above needs the deadline to cover each whole message (one period from the end of the previous message to
+   the last byte of this one). If instead it is re-armed before every read — bounding only the time the connection may
+   stay idle — a host that answers the first message and the negotiation and then trickles its GET_READER_CONFIG
+   reply, one byte every g <= r, holds the probe for ever, with or without the forced Close (the read loop sits inside
+   the message and does not see the client being closed), and a run with one such host never returns. *)
+Theorem C17_trickler_blocks_with_idle_deadline : forall tm r g,
+  read_deadline tm = Some r -> idle_deadline tm = true -> 0 < send_timeout tm -> 0 < g -> g <= r ->
+  probe_time tm (Script (trickler g)) = None.
+Proof. exact trickler_blocks. Qed.
+Print Assumptions C17_trickler_blocks_with_idle_deadline.
+
+Theorem C17_run_time_refuted_idle_deadline : forall tm r dl,
+  read_deadline tm = Some r -> idle_deadline tm = true -> 0 < r -> 0 < send_timeout tm -> 0 < dl ->
+  exists m port hosts work, run_time tm dl m port hosts work = None.
+Proof. exact run_time_refuted_idle_deadline. Qed.
+Print Assumptions C17_run_time_refuted_idle_deadline.
+
+(* ---- "reported as received", whatever the run's deadline ----
+   What a run reports about a host is what an undisturbed probe of that host returns: the deadline of the run, the
+   other hosts, the registered devices and the distribution of addresses over workers decide WHETHER a host is probed,
+   never WHAT is reported about it. So a reader that answers the whole exchange is either not reported or reported
+   with the name, vendor, model and firmware it sent — wherever the deadline falls during its probe. *)
+Theorem C17_reported_is_undisturbed_probe_result : forall tm dl m port hosts work a i,
+  In (a, i) (run_reported tm dl m port hosts work) -> probe_result tm (hosts a) = Some i.
+Proof. exact reported_is_probe_result. Qed.
+Print Assumptions C17_reported_is_undisturbed_probe_result.
+
+Example C17_example_trickle_and_deadlines :
+  let tm := go_timers_deadline 600 20000 in
+  let ok := Ans 0 true in
+  let caps := Some (25882, 2001002, str "5.14") in
+  let trick := mk_script (DialAccept 0) ok ok None (Trickle 400) (Some (0, [0; 25; 197; 214])) ok caps ok false true None [] None in
+  (* a correct reader that takes 300 ticks for every answer: its probe ends after 1500 *)
+  let slow := mk_script (DialAccept 0) (Ans 300 true) (Ans 300 true) None (Ans 300 true) (Some (0, [0; 25; 197; 214]))
+                        (Ans 300 true) caps (Ans 300 true) false true None [] None in
+  idle_deadline tm = false /\
+  probe_time tm (Script trick) = Some 600 /\
+  probe_time (mk_timers 600 (Some 600) 20000 true true) (Script trick) = None /\
+  probe_time tm (Script slow) = Some 1500 /\
+  (* whatever the run's deadline: reported with everything it sent, or not at all *)
+  map (fun dl => map (fun ai => (i_name (snd ai), i_vendor (snd ai), i_model (snd ai)))
+                     (run_reported tm dl (fun _ => None) 5084 (fun _ => Script slow) [[1]])) [0; 1; 700; 1000; 1300; 5000] =
+  [[]; [(str "SpeedwayR-19-C5-D6", 25882, 2001002)]; [(str "SpeedwayR-19-C5-D6", 25882, 2001002)];
+   [(str "SpeedwayR-19-C5-D6", 25882, 2001002)]; [(str "SpeedwayR-19-C5-D6", 25882, 2001002)]; [(str "SpeedwayR-19-C5-D6", 25882, 2001002)]].
 Proof. vm_compute. repeat split; reflexivity. Qed.
